@@ -8,7 +8,7 @@ from . import _difffam as FAM
 
 ID = 'C11'
 LEAN_TARGETS = ['Properties.C11']
-THEOREMS = ['DiffO.C11_similar_empty', 'DiffO.C11_case_leaf', 'DiffO.C11_strtype_leaf', 'DiffO.C11_numtype_leaf', 'DiffO.C11_epsilon_leaf', 'DiffO.C11_significant_leaf', 'DiffO.C11_excluded_leaf', 'DiffO.C11_private_key', 'DiffO.C11_exclude_misaligned_fixed']
+THEOREMS = ['DiffO.C11_similar_empty', 'DiffO.C11_case_leaf', 'DiffO.C11_strtype_leaf', 'DiffO.C11_numtype_leaf', 'DiffO.C11_epsilon_leaf', 'DiffO.C11_significant_leaf', 'DiffO.C11_excluded_leaf', 'DiffO.C11_private_key', 'DiffO.C11_exclude_misaligned_fixed', 'DiffO.C11_N_colliding_keys_order']
 RULE = ('nested values (dict with str/int/float/None keys, list, tuple, set of scalars; leaves str, bytes, int, float, bool, None, aware/naive datetimes, enum members, nan) x '
         'each option F in {ignore_string_case, ignore_string_type_changes, ignore_numeric_type_changes, significant_digits, math_epsilon, truncate_datetime, default_timezone, '
         'ignore_private_variables, exclude_types, ignore_nan_inequality, use_enum_value} and pairs of options x a normaliser for F applied at 1..all eligible positions, dict keys '
@@ -323,6 +323,39 @@ def run(ctx, impl_only=False):
                 ctx.violate(case, 'the plain diff is empty but the diff under %s is not: %s' % ('+'.join(combo), str(d)[:120]))
             if plain:
                 ctx.nontriv(('pair', repr(a), repr(b), combo))
+    # ---- re-inserted dictionaries: the same items in another insertion order (plain diff empty), with keys that collide under a key-cleaning option
+    #      kept in their relative order (the swapped order is finding F50): every option and pair must leave the diff empty
+    coll = [('Key', 'key'), ('A', 'a'), (b'a', 'a'), ('b', b'b'), (1.0000001, 1), ('Straße', 'STRASSE')]
+    for i in range(g_pairs):
+        k1, k2 = ctx.rng.choice(coll)
+        filler = ctx.rng.sample(['p', 'q', 'r', 2, 3.5, None, (1, 2)], ctx.rng.randint(0, 4))
+        vals = [0, 1, 'x', 'X', 2.5, None, [1, 'a'], {'z': 1}]
+        items = [(k, ctx.rng.choice(vals)) for k in filler]
+        pos = sorted(ctx.rng.sample(range(len(items) + 2), 2))
+        items.insert(pos[0], (k1, ctx.rng.choice(vals))); items.insert(pos[1], (k2, ctx.rng.choice(vals)))
+        a = dict(items)
+        rest = [kv for kv in items if kv[0] not in (k1, k2)]
+        ctx.rng.shuffle(rest)
+        pos2 = sorted(ctx.rng.sample(range(len(rest) + 2), 2))
+        rest.insert(pos2[0], (k1, a[k1])); rest.insert(pos2[1], (k2, a[k2]))
+        b = copy.deepcopy(dict(rest))
+        if ctx.rng.random() < 0.5:
+            a, b = {'w': [a]}, {'w': [b]}
+        plain, e0 = safe_diff(a, b)
+        if e0 is not None or plain:
+            ctx.count('reinserted_plain_nonempty'); continue
+        for combo in (combos if ctx.thorough() else ctx.rng.sample(combos, 12)):
+            kw = {}
+            for nme in combo:
+                kw.update(OPTIONS[nme])
+            case = {'clause': 'monotone/total', 'options': list(combo), 'x': repr(a), 'y': repr(b), 'zip': False}
+            ctx.evaluations += 1
+            d, e = safe_diff(a, b, **kw)
+            ctx.count('reinserted_colliding_keys')
+            if e is not None:
+                ctx.violate(case, 'options %s make DeepDiff raise %s (%s) on inputs it accepts without them' % ('+'.join(combo), type(e).__name__, str(e)[:60]))
+            elif d:
+                ctx.violate(case, 'the plain diff is empty but the diff under %s is not: %s' % ('+'.join(combo), str(d)[:120]))
     # ---- every kind of leaf at a dictionary value, a tuple item and a nested position, against a copy and against a numeric twin of another type,
     #      under each option and each pair of numeric options: nothing may raise that the plain diff accepts, a copy stays empty
     odd = ODD_NUMS + NANS + ODD_DATES + NONASCII + DT + [_decimal.Decimal('-Infinity'), _decimal.Decimal('0.001'), 10 ** 20, b'caf\xc3\xa9', Color.GREEN]
@@ -402,7 +435,9 @@ def run(ctx, impl_only=False):
 
 def open_witnesses(ctx, findings):
     from deepdiff import DeepDiff
-    wit = {'F40': lambda: DeepDiff([{1.0, 5}], [{1.0000001, 5}], math_epsilon=0.01) == {}}
+    wit = {'F40': lambda: DeepDiff([{1.0, 5}], [{1.0000001, 5}], math_epsilon=0.01) == {},
+           'F50': lambda: (DeepDiff({'A': 1, 'a': 2}, {'a': 2, 'A': 1}) == {} and DeepDiff({'A': 1, 'a': 2}, {'a': 2, 'A': 1}, ignore_string_case=True) == {}
+                           and DeepDiff({b'x': 1, 'x': 2}, {'x': 2, b'x': 1}, ignore_string_type_changes=True) == {})}
     for fid, fn in wit.items():
         ctx.evaluations += 1
         try:
